@@ -25,6 +25,9 @@ def cases(tier, seed):
                         "name": f"_ema_grouped_timed/float64/N=3,G=3/mask=True/halflife=7/gaps (0,1,3)/code sequences starting with {first}"})
     for dt in ("float64", "int64"):
         out.append({"variant": "ungrouped", "dtype": dt, "N": 4, "name": f"grouped(single group) == ema_adjusted/{dt}/N=4"})
+    for first in range(-1, 2):
+        out.append({"variant": "layout", "N": 4, "G": 2, "first": first, "orders": [[0, 1], [1, 0]], "masks": [None, [True, False, True, True]],
+                    "name": f"GroupBy.ema(index_by_groups=True) lists the row-aligned numbers group by group/N=4,G=2/both label orders/code sequences starting with {first}"})
     out.append({"variant": "halflife_api", "name": "ema/ema_grouped(halflife=h): alpha = 1 - 2^(-1/h) for every real h > 0"})
     for unit in ("ns", "us", "ms", "s"):
         out.append({"variant": "timed_api", "unit": unit, "N": 3, "name": f"ema_grouped(halflife='1{unit}', times=datetime64[{unit}])/N=3"})
@@ -43,6 +46,8 @@ def run_case(E, case):
         return F.run_halflife_api(E, case, PROP)
     if v == "timed_api":
         return F.run_timed_api(E, case, PROP)
+    if v == "layout":
+        return F.run_layout(E, case, PROP)
     raise ValueError(v)
 
 
